@@ -452,6 +452,9 @@ fn worker_fault_inner(rt: RtKind, workers: usize) -> E2eResult {
 /// READY, then the exit line when the Server future resolves.
 pub fn child_main(path: &str) -> ! {
     let path = path.to_string();
+    if std::env::var_os("VERIF_E2E_DEBUG").is_some() {
+        let _ = tracing_subscriber::fmt().with_max_level(tracing::Level::TRACE).with_writer(std::io::stderr).try_init();
+    }
     let r = actix_rt::System::new().block_on(async move {
         let _ = std::fs::remove_file(&path);
         let srv = Server::build()
@@ -463,7 +466,10 @@ pub fn child_main(path: &str) -> ! {
                         let mut b = [0u8; 1];
                         let _ = io.write_all(b"S").await;
                         // held until the client closes
-                        let _ = io.read(&mut b).await;
+                        let r = io.read(&mut b).await;
+                        if std::env::var_os("VERIF_E2E_DEBUG").is_some() {
+                            eprintln!("child: service read returned {:?}", r);
+                        }
                         Ok::<_, ()>(())
                     }))
                 })
